@@ -69,6 +69,7 @@ Record pobs := PObs {
   po_child : option child }.   (* what the started process itself reported *)
 Record obs := Obs {
   ob_verdict : N;              (* 0 PASS, 1 FAIL, 2 HARD_ERROR, other: anything else *)
+  ob_phase : N;                (* the "In [phase]" line of the error report as [phase_code]; 0 if there is none *)
   ob_procs : list pobs;
   ob_act : option outcome;     (* result/exit-code, result/stdout, result/stderr *)
   ob_source : option text;     (* contents of the file given to the source interpreter *)
@@ -114,7 +115,7 @@ Definition pstart_matches (p : pstart) (o : pobs) : bool :=
   exe_eqb (ps_exe p) (po_exe o) && option_eqb text_eqb (ps_stdin p) (po_stdin o) && text_eqb (ps_cwd p) (po_cwd o).
 
 Definition result_matches (r : result) (o : obs) : bool :=
-  (status_code (rs_verdict r) =? ob_verdict o) &&
+  (status_code (rs_verdict r) =? ob_verdict o) && (rs_phase r =? ob_phase o) &&
   list_match pstart_matches (rs_starts r) (ob_procs o) &&
   option_eqb outcome_eqb (rs_act r) (ob_act o) &&
   option_eqb text_eqb (rs_source r) (ob_source o) &&
